@@ -5,9 +5,10 @@
   JRV.Model.Backend (abstract JSON codec with its laws as hypotheses).
   Versions are in tenths: 20 = 2.0, 10 = 1.0.  `fresh` is the id `uuid4` would generate;
   `conv` stands for `jsonclass.dump` and is arbitrary in every theorem.
+
+  Companion theorems of the extracted facts (`C14_gen_*`) live in JRV/Properties/C14Gen.lean.
 -/
 import JRV.Model.Payload
-import JRV.Generated
 
 set_option linter.unusedSimpArgs false
 
@@ -19,6 +20,44 @@ private theorem verStr_20 : verStr 20 = "2.0" := by decide
 private theorem request_dict (ver : Nat) (rpcid : PyVal) (fresh m : String) (p : PyVal) :
     ∃ kvs, request ver rpcid fresh (.str m) p = .ok (.dict kvs) := by
   simp [request, isStr, pure, Except.pure]
+
+private theorem request_ok_dict (ver : Nat) (rpcid : PyVal) (fresh : String) (m p : PyVal) (d : PyVal)
+    (h : request ver rpcid fresh m p = .ok d) : d.isDict = true := by
+  unfold request at h
+  split at h
+  · simp [raise] at h
+  · simp only [pure, Except.pure, Except.ok.injEq] at h
+    subst h; rfl
+
+private theorem notify_ok_dict (ver : Nat) (rpcid : PyVal) (fresh : String) (m p : PyVal) (d : PyVal)
+    (h : notify ver rpcid fresh m p = .ok d) : d.isDict = true := by
+  unfold notify at h
+  cases hr : request ver rpcid fresh m p with
+  | error e => simp [hr, bind, Except.bind] at h
+  | ok r =>
+    have hrd := request_ok_dict ver rpcid fresh m p r hr
+    cases r <;> simp [isDict] at hrd
+    simp only [hr, bind, Except.bind] at h
+    split at h <;> (simp only [pure, Except.pure, Except.ok.injEq] at h; subst h; rfl)
+
+private theorem error_isDict (ver : Nat) (rpcid c m dt : PyVal) : (error ver rpcid c m dt).isDict = true := by
+  by_cases hv : ver ≥ 20 <;> simp [error, response, hv, isDict]
+
+private theorem response_isDict (ver : Nat) (rpcid r : PyVal) : (response ver rpcid r).isDict = true := by
+  by_cases hv : ver ≥ 20 <;> simp [response, hv, isDict]
+
+/-- Whatever `dump` emits is a dictionary (every branch ends in `Payload.error/response/notify/request`). -/
+theorem C14_dump_emits_dict (cfg : Config) (conv : PyVal → PyM PyVal) (fresh : String)
+    (params : Params) (methodname rpcid : PyVal) (version : VerArg) (isResponse isNotify : Bool) (d : PyVal)
+    (hd : dump cfg conv fresh params methodname rpcid version isResponse isNotify = .ok d) : d.isDict = true := by
+  unfold dump at hd
+  simp only [bind, Except.bind, pure, Except.pure] at hd
+  repeat' split at hd
+  all_goals first
+    | (simp [raise] at hd; done)
+    | (simp only [Except.ok.injEq] at hd; subst hd; first | exact error_isDict _ _ _ _ _ | exact response_isDict _ _ _)
+    | exact notify_ok_dict _ _ _ _ _ _ hd
+    | exact request_ok_dict _ _ _ _ _ _ hd
 
 /-- `params` is something `dump` accepts with a method name: list, tuple or dict. -/
 def containerParams (p : PyVal) : Bool := p.isList || p.isTuple || p.isDict
@@ -166,18 +205,30 @@ theorem C14_accepts (cfg : Config) (conv : PyVal → PyM PyVal) (fresh : String)
   · simp only [notify, hk, bind, Except.bind, ↓reduceIte]
     split <;> simp [Except.isOk, Except.toBool, pure, Except.pure]
 
+/-- A result response: whatever `methodname` is (a response may name its method or not), as long as the id is not
+    `None` — and, when a method name IS given, the result is something `dump` accepts next to a method name (list,
+    tuple, dict or `None`; otherwise the TypeError of `C14_reject` comes first) — `dump(…, is_response=True)` emits
+    `Payload.response` of the converted result with the id verbatim. -/
 theorem C14_dump_response (cfg : Config) (conv : PyVal → PyM PyVal) (fresh : String)
     (p p' methodname rpcid : PyVal) (version : VerArg) (isNotify : Bool)
-    (hm : methodname.isStr = false) (hid : rpcid ≠ .none)
+    (hm : methodname.isStr = true → validParams true (.val p) = true) (hid : rpcid ≠ .none)
     (hc : (if cfg.useJsonclass then conv p else pure p) = .ok p') :
     dump cfg conv fresh (.val p) methodname rpcid version true isNotify =
       .ok (response (resolveVersion cfg version) rpcid p') := by
   unfold dump
-  by_cases hu : cfg.useJsonclass = true
-  · simp only [hu, ↓reduceIte] at hc
-    cases p <;> cases rpcid <;> simp_all [bind, Except.bind, pure, Except.pure]
-  · simp only [hu] at hc
-    cases p <;> cases rpcid <;> simp_all [bind, Except.bind, pure, Except.pure]
+  by_cases hs : methodname.isStr = true
+  · have hv := hm hs
+    by_cases hu : cfg.useJsonclass = true
+    · simp only [hu, ↓reduceIte] at hc
+      cases p <;> cases rpcid <;> simp_all [validParams, isList, isTuple, isDict, bind, Except.bind, pure, Except.pure]
+    · simp only [hu] at hc
+      cases p <;> cases rpcid <;> simp_all [validParams, isList, isTuple, isDict, bind, Except.bind, pure, Except.pure]
+  · have hs' : methodname.isStr = false := by simpa using hs
+    by_cases hu : cfg.useJsonclass = true
+    · simp only [hu, ↓reduceIte] at hc
+      cases p <;> cases rpcid <;> simp_all [bind, Except.bind, pure, Except.pure]
+    · simp only [hu] at hc
+      cases p <;> cases rpcid <;> simp_all [bind, Except.bind, pure, Except.pure]
 
 /-- The version argument: `None` (or 0) takes the configuration's version, `1.0`/`2.0` and the
     strings `"1.0"`/`"2.0"` select that version. -/
@@ -192,27 +243,118 @@ theorem C14_loads_empty (B : Backend) (cfg : Config) (unconv : PyVal → PyM PyV
     loads B cfg unconv "" = .ok .none := by
   simp [loads, pure, Except.pure]
 
-/-- `loads(dumps(x))` returns the emitted structure up to JSON normalisation, for every backend
-    satisfying the codec law (class translation off, so that `load` is the identity). -/
+mutual
+  /-- "Plain payload": no dictionary anywhere in the value has a `"__jsonclass__"` key and there is no instance in it
+      (the same predicate as `jcFree` of JRV.Model.EndToEnd, restated here so that C14 does not depend on that model). -/
+  def c14Plain : PyVal → Bool
+    | .list xs => c14PlainList xs
+    | .tuple xs => c14PlainList xs
+    | .set xs => c14PlainList xs
+    | .frozenset xs => c14PlainList xs
+    | .dict kvs => c14PlainKVs kvs
+    | .obj _ _ => false
+    | _ => true
+  def c14PlainList : List PyVal → Bool
+    | [] => true
+    | x :: xs => c14Plain x && c14PlainList xs
+  def c14PlainKVs : List (PyVal × PyVal) → Bool
+    | [] => true
+    | (k, v) :: rest => k != .str "__jsonclass__" && c14Plain v && c14PlainKVs rest
+end
+
+mutual
+  private theorem c14Plain_normalise : ∀ v : PyVal, c14Plain v = true → c14Plain v.normalise = true
+    | .none, _ => rfl | .bool _, _ => rfl | .int _, _ => rfl | .float _, _ => rfl | .str _, _ => rfl
+    | .list xs, h => by simp only [c14Plain] at h; simp [normalise, c14Plain, c14PlainList_normalise xs h]
+    | .tuple xs, h => by simp only [c14Plain] at h; simp [normalise, c14Plain, c14PlainList_normalise xs h]
+    | .set xs, h => by simp only [c14Plain] at h; simp [normalise, c14Plain, c14PlainList_normalise xs h]
+    | .frozenset xs, h => by simp only [c14Plain] at h; simp [normalise, c14Plain, c14PlainList_normalise xs h]
+    | .dict kvs, h => by simp only [c14Plain] at h; simp [normalise, c14Plain, c14PlainKVs_normalise kvs h]
+    | .obj _ _, h => by simp [c14Plain] at h
+  private theorem c14PlainList_normalise : ∀ xs : List PyVal, c14PlainList xs = true → c14PlainList (normaliseList xs) = true
+    | [], _ => rfl
+    | x :: xs, h => by
+      simp only [c14PlainList, Bool.and_eq_true] at h
+      simp [normaliseList, c14PlainList, c14Plain_normalise x h.1, c14PlainList_normalise xs h.2]
+  private theorem c14PlainKVs_normalise : ∀ kvs : List (PyVal × PyVal), c14PlainKVs kvs = true → c14PlainKVs (normaliseKVs kvs) = true
+    | [], _ => rfl
+    | (k, v) :: xs, h => by
+      simp only [c14PlainKVs, Bool.and_eq_true] at h
+      simp [normaliseKVs, c14PlainKVs, h.1.1, c14Plain_normalise v h.1.2, c14PlainKVs_normalise xs h.2]
+end
+
+/-- What C15 proves of the real class translator on plain data, taken as a hypothesis on the abstract `conv`/`unconv`
+    (the `Transparent` of C01, restated locally): on JSON-able plain values `jsonclass.dump` is JSON normalisation
+    (tuples become lists) and `jsonclass.load` is the identity. -/
+structure PlainTransparent (conv unconv : PyVal → PyM PyVal) : Prop where
+  conv_ok : ∀ v, v.wfJson = true → c14Plain v = true → conv v = .ok v.normalise
+  unconv_ok : ∀ v, c14Plain v = true → unconv v = .ok v
+
+/-- `loads(dumps(x))` returns the emitted structure up to JSON normalisation, for every backend satisfying the codec
+    law — with class translation OFF (then `load` is the identity, nothing is asked of `unconv`) and with class
+    translation ON, which is the default `Config`, for plain payloads and a translator that is transparent on them.
+    That the emitted message is a dictionary is not a hypothesis: `C14_dump_emits_dict`. -/
 theorem C14_roundtrip (B : Backend) (cfg : Config) (conv unconv : PyVal → PyM PyVal) (fresh : String)
     (params : Params) (methodname rpcid : PyVal) (version : VerArg) (isResponse isNotify : Bool)
-    (d : PyVal) (hoff : cfg.useJsonclass = false)
+    (d : PyVal)
     (hd : dump cfg conv fresh params methodname rpcid version isResponse isNotify = .ok d)
-    (hwf : d.wfJson = true) (hdict : d.isDict = true) :
+    (hwf : d.wfJson = true)
+    (hon : cfg.useJsonclass = true → PlainTransparent conv unconv ∧ c14Plain d = true) :
     ∃ s, dumps B cfg conv fresh params methodname rpcid version isResponse isNotify = .ok s ∧
       loads B cfg unconv s = .ok d.normalise := by
   obtain ⟨s, hr, hne, hp⟩ := B.roundtrip d hwf
+  have hdict := C14_dump_emits_dict cfg conv fresh params methodname rpcid version isResponse isNotify d hd
   refine ⟨s, ?_, ?_⟩
   · simp [dumps, hd, hr, bind, Except.bind]
-  · have : (s == "") = false := by simpa using hne
-    cases d <;> simp_all [loads, load, normalise, isDict, pure, Except.pure]
+  · have hs : (s == "") = false := by simpa using hne
+    by_cases hu : cfg.useJsonclass = true
+    · obtain ⟨T, hpl⟩ := hon hu
+      have hun := T.unconv_ok d.normalise (c14Plain_normalise d hpl)
+      cases d <;> simp_all [loads, load, normalise, isDict, pure, Except.pure]
+    · cases d <;> simp_all [loads, load, normalise, isDict, pure, Except.pure]
 
-/-- Tie to the source: the thresholds `< 1.1` and `>= 2` and the id test of `Payload.request`. -/
-theorem C14_gen_thresholds :
-    Generated.payloadThresholds = some (11, 20) := by decide
+/-- The round trip of a request built from plain container params under the DEFAULT configuration kind
+    (`use_jsonclass` on) and a transparent translator: the text parses back to the request dictionary that
+    `Payload.request`/`notify` builds from the normalised params. -/
+theorem C14_roundtrip_request_on (B : Backend) (cfg : Config) (conv unconv : PyVal → PyM PyVal) (fresh : String)
+    (p : PyVal) (m : String) (rpcid : PyVal) (version : VerArg) (isNotify : Bool) (d : PyVal)
+    (hu : cfg.useJsonclass = true) (T : PlainTransparent conv unconv)
+    (hp : containerParams p = true) (hpw : p.wfJson = true) (hpp : c14Plain p = true)
+    (hd : (if isNotify then notify (resolveVersion cfg version) rpcid fresh (.str m) p.normalise
+           else request (resolveVersion cfg version) rpcid fresh (.str m) p.normalise) = .ok d)
+    (hwf : d.wfJson = true) (hpl : c14Plain d = true) :
+    ∃ s, dumps B cfg conv fresh (.val p) (.str m) rpcid version false isNotify = .ok s ∧
+      loads B cfg unconv s = .ok d.normalise := by
+  have hc : (if cfg.useJsonclass then conv p else pure p) = .ok p.normalise := by
+    simp [hu, T.conv_ok p hpw hpp]
+  have hdump := C14_dump_request cfg conv fresh p p.normalise m rpcid version isNotify hp hc
+  exact C14_roundtrip B cfg conv unconv fresh (.val p) (.str m) rpcid version false isNotify d
+    (by rw [hdump]; exact hd) hwf (fun _ => ⟨T, hpl⟩)
 
-theorem C14_gen_idTest :
-    Generated.payloadIdTest = some "none-or-empty-string" := by decide
+/-- `Fault.dump(rpcid=…, version=…)` / `Fault.response(rpcid=…, version=…)`: the version argument selects the form as
+    for `dump`; the forced id replaces the id the Fault was built with **only when it is truthy** — `if rpcid:` in the
+    source: a forced `0`, `0.0`, `""`, `False` (and `None`) is ignored and the construction id is kept — and it is
+    stored on the Fault (a later `dump()` uses it). -/
+theorem C14_fault_dump_forced (cfg : Config) (f : Fault) (rpcid : PyVal) (version : VerArg) :
+    (rpcid.truthy = true →
+      faultDumpWith cfg f rpcid version =
+        (error (resolveVersion cfg version) rpcid f.code f.message f.data, { f with rpcid := rpcid })) ∧
+    (rpcid.truthy = false →
+      faultDumpWith cfg f rpcid version =
+        (error (resolveVersion cfg version) f.rpcid f.code f.message f.data, f)) ∧
+    faultDumpWith cfg f .none .none = (faultDump cfg f, f) := by
+  refine ⟨?_, ?_, ?_⟩
+  · intro h; simp [faultDumpWith, h]
+  · intro h; simp [faultDumpWith, h]
+  · simp [faultDumpWith, faultDump, truthy, resolveVersion]
+
+/-- The ids a forced-id call ignores, explicitly: `0`, `0.0`, `""`, `False`, `None`, `[]`, `{}`. -/
+theorem C14_fault_dump_forced_falsy (cfg : Config) (f : Fault) (version : VerArg) :
+    ∀ rid ∈ [PyVal.int 0, .float ⟨false, 0, 0⟩, .str "", .bool false, .none, .list [], .dict []],
+      (faultDumpWith cfg f rid version).2 = f := by
+  intro rid h
+  simp only [List.mem_cons, List.mem_nil_iff, or_false] at h
+  rcases h with rfl | rfl | rfl | rfl | rfl | rfl | rfl <;> simp [faultDumpWith, truthy, PyFloat.isZero]
 
 /- Non-vacuity -/
 example : containerParams (.list [.int 1]) = true := by decide
@@ -222,4 +364,17 @@ example : dump {} (fun v => pure v) "f" (.val (.tuple [.int 1, .str "a"])) (.str
 example : (dump {} (fun v => pure v) "f" (.val (.int 5)) (.str "m") .none .none false false).isOk = false := by
   decide +kernel
 
+/- `C14_roundtrip` with class translation ON: the default Config, a transparent translator (normalisation / identity),
+   a request with tuple params — all hypotheses hold. -/
+example : c14Plain (.dict [(.str "id", .int 0), (.str "method", .str "m"), (.str "params", .list [.int 1, .str "a"]),
+    (.str "jsonrpc", .str "2.0")]) = true := by decide +kernel
+example : PlainTransparent (fun v => pure v.normalise) (fun v => pure v) :=
+  ⟨fun _ _ _ => rfl, fun _ _ => rfl⟩
+example : (faultDumpWith {} { code := .int 1, message := .str "m", rpcid := .str "built" } (.int 0) (.num 10)).1
+    = .dict [(.str "result", .none), (.str "id", .str "built"),
+             (.str "error", .dict [(.str "code", .int 1), (.str "message", .str "m")])] := by decide +kernel
+example : dump {} (fun v => pure v) "f" (.val (.list [])) (.str "named") (.int 0) .none true false
+    = .ok (.dict [(.str "result", .list []), (.str "id", .int 0), (.str "jsonrpc", .str "2.0")]) := by decide +kernel
+
 end JRV.Props
+
